@@ -8,6 +8,7 @@ the `_counterexample` theorems.  `mul`/`one` are arbitrary: `*`/`1` for values, 
 -/
 import CobaVerif.Lemmas.C20
 import CobaVerif.Generated.C20Callers
+import CobaVerif.Generated.C20LinAlg
 
 namespace Coba.C20
 
@@ -384,5 +385,269 @@ theorem learner_entry_shapes (ts : List Inter) :
 /-- why the obligation matters (round d): a `list(...)` before the constructor splits a bare str into characters -/
 theorem shape_listof_counterexample :
     normalise [Norm.listOf, Norm.wrapStr] (.str ['x', 'a']) ≠ (Shape.str ['x', 'a']).meaning := normalise_listOf_splits
+
+/-! ## LinUCB (coba/learners/linucb.py `learn`, `_pmf`): the order of the encoded features is unobservable -/
+
+/-- the dot product does not depend on the common layout of its two arguments -/
+theorem dotQ_perm {p : List Nat} {n : Nat} (hp : p.Perm (List.range n)) {u v : List Rat}
+    (hu : u.length = n) (hv : v.length = n) : dotQ (permV p u) (permV p v) = dotQ u v := dotQ_perm' hp hu hv
+
+/-- matrix-vector product commutes with re-laying out rows, columns and the vector -/
+theorem matVecQ_perm {p : List Nat} {n : Nat} (hp : p.Perm (List.range n)) {M : List (List Rat)}
+    {f : List Rat} (hM : M.length = n) (hrows : ∀ row ∈ M, row.length = n) (hf : f.length = n) :
+    matVecQ (permM p M) (permV p f) = permV p (matVecQ M f) := matVecQ_perm' hp hM hrows hf
+
+/-- the initial state is well-formed (θ has d entries, A⁻¹ is d×d) -/
+theorem init_wf (d : Nat) : (LinState.init d).WF d := init_wf' d
+
+/-- `learn` keeps the dimensions -/
+theorem learn_wf {n : Nat} {s : LinState} (hs : s.WF n) {f : List Rat} (r : Rat) : (s.learn f r).WF n :=
+  learn_wf' hs r
+
+/-- a re-laid-out state has the dimensions of the layout -/
+theorem perm_wf {n : Nat} {p : List Nat} (hp : p.length = n) (s : LinState) : (s.perm p).WF n := perm_wf' hp s
+
+/-- one `learn` call commutes with the layout: learning the re-laid-out features in the re-laid-out state gives
+the re-laid-out new state (θ and A⁻¹ exactly, over ℚ) -/
+theorem learn_perm {n : Nat} {s : LinState} (hs : s.WF n) {f : List Rat} (hf : f.length = n)
+    {p : List Nat} (hp : p.Perm (List.range n)) (r : Rat) :
+    (s.perm p).learn (permV p f) r = (s.learn f r).perm p := learn_perm' hs hf hp r
+
+/-- `_pmf`'s point estimate θ·f and confidence term fᵀA⁻¹f are layout independent -/
+theorem score_perm {n : Nat} {s : LinState} (hs : s.WF n) {f : List Rat} (hf : f.length = n)
+    {p : List Nat} (hp : p.Perm (List.range n)) : (s.perm p).score (permV p f) = s.score f := score_perm' hs hf hp
+
+/-- the initial state (zeros, identity) looks the same in every layout -/
+theorem init_perm {d : Nat} {p : List Nat} (hp : p.Perm (List.range d)) :
+    (LinState.init d).perm p = LinState.init d := init_perm' hp
+
+/-- MAIN: for EVERY history of `learn` / `predict` calls on a fresh learner, laying the d encoded features out in
+another order `p` (what a different order of the interaction terms does, `encode_terms_order_perm`) leaves every
+point estimate and every confidence bound of every prediction unchanged, and the final state is the re-laid-out
+final state -/
+theorem linucb_perm_equivariant (d : Nat) (p : List Nat) (events : List LinEvent)
+    (hp : p.Perm (List.range d)) (hev : ∀ e ∈ events, e.WF d) :
+    (linRun (LinState.init d) (events.map (LinEvent.perm p))).1 = (linRun (LinState.init d) events).1
+    ∧ (linRun (LinState.init d) (events.map (LinEvent.perm p))).2
+        = (linRun (LinState.init d) events).2.perm p := linucb_perm_equivariant' d p events hp hev
+
+/-- every re-ordering of a vector is a re-layout by an index permutation `p` (the form `linucb_perm_equivariant` uses) -/
+theorem perm_index_exists {l l' : List Rat} (h : l.Perm l') :
+    ∃ p : List Nat, p.Perm (List.range l.length) ∧ l' = permV p l := perm_index_exists' h
+
+/-- … in particular listing the interaction terms in another order re-lays the dense numeric encoding out by an
+index permutation of its positions (`encode_terms_order_perm` in index form), so `linucb_perm_equivariant` applies -/
+theorem encode_terms_order_index_perm (mul : Rat → Rat → Rat) (one : Rat) (F : Char → List Rat)
+    {ts ts' : List (List Char)} (h : ts.Perm ts') :
+    ∃ p : List Nat, p.Perm (List.range (termsS mul one F ts).length)
+      ∧ termsS mul one F ts' = permV p (termsS mul one F ts) := encode_terms_order_index_perm' mul one F h
+
+/-- the hypotheses of `linucb_perm_equivariant` are satisfiable: d = 3, p = [2,0,1], two learns and a predict -/
+example : [2, 0, 1].Perm (List.range 3) ∧
+    ∀ e ∈ [LinEvent.learn [1, 2, 3] 1, .learn [0, 1, (1 : Rat) / 2] 0, .predict [[1, 0, 0], [0, 1, 1]]], e.WF 3 :=
+  linucb_example_hyps
+
+/-- … and on that history the two runs' predictions agree by evaluation, with non-trivial values -/
+example :
+    (linRun (LinState.init 3) ([LinEvent.learn [1, 2, 3] 1, .learn [0, 1, (1 : Rat) / 2] 0,
+        .predict [[1, 0, 0], [0, 1, 1]]].map (LinEvent.perm [2, 0, 1]))).1
+      = (linRun (LinState.init 3) [LinEvent.learn [1, 2, 3] 1, .learn [0, 1, (1 : Rat) / 2] 0,
+        .predict [[1, 0, 0], [0, 1, 1]]]).1
+    ∧ (linRun (LinState.init 3) [LinEvent.learn [1, 2, 3] 1, .learn [0, 1, (1 : Rat) / 2] 0,
+        .predict [[1, 0, 0], [0, 1, 1]]]).1 ≠ [[(0, 1), (0, 2)]] := linucb_example_values
+
+/-! ### Phase 4: IEEE double rounding as an explicit model (`fl53`, `fmul53` in Model) — `ExactOn` proved, not assumed -/
+
+/-- round-to-nearest-even to `prec ≥ 1` significant bits returns every number `m·2^e` with `|m| ≤ 2^prec` unchanged -/
+theorem roundSig_representable (prec : Nat) (hp : 1 ≤ prec) (q : Rat) (m e : Int) (hm : |m| ≤ (2 : Int) ^ prec)
+    (hq : q = (m : Rat) * (2 : Rat) ^ e) : roundSig prec q = q := roundSig_exact prec hp q m e hm hq
+
+/-- the modelled double multiplication `fmul53 a b = fl53 (a·b)` (the function the driver op "fl53" ties to CPython's
+`float.__mul__` product by product) returns every product that is itself a double exactly: `ExactOn` holds for it -/
+theorem exactOn_fl53 : ExactOn fmul53 := exactOn_fmul53
+
+/-- `encode_float_exact_dyadic` with the assumption discharged: for ALL term lists with non-empty terms and ALL keyword
+arguments whose feature values are `m·2^e` with `|m| ≤ M`, `|e| ≤ E`, `M^d ≤ 2^53`, `d·E ≤ 970` (d = largest term
+degree), the encoder run with modelled IEEE double multiplication IS the exact encoder, dense and sparse -/
+theorem encode_float53_exact_dyadic (M E : Nat) (hM : 1 ≤ M)
+    (is : List Inter) (kw : List (Char × NsVal)) (hne : ∀ t ∈ strTerms is, t ≠ [])
+    (hb : M ^ maxDeg is ≤ 2 ^ 53) (he : maxDeg is * E ≤ 970)
+    (hd : ∀ c, ∀ v ∈ featsDense kw c, Dy M E v) (hs : ∀ c, ∀ p ∈ featsSparse kw c, Dy M E p.2) :
+    encodeG fmul53 Cfg.fixed is kw = encode Cfg.fixed is kw :=
+  encode_float53_exact_dyadic' M E hM is kw hne hb he hd hs
+
+/-- the hypotheses are met by `x=[1.5, 2.75]` under `'xxx'` with `M = 11`, `E = 2` -/
+example : (∀ t ∈ strTerms [.term ['x', 'x', 'x']], t ≠ [])
+    ∧ (∀ c, ∀ v ∈ featsDense [('x', .dense [.num (3 / 2), .num (11 / 4)])] c, Dy 11 2 v)
+    ∧ (∀ c, ∀ p ∈ featsSparse [('x', .dense [.num (3 / 2), .num (11 / 4)])] c, Dy 11 2 p.2)
+    ∧ 11 ^ maxDeg [.term ['x', 'x', 'x']] ≤ 2 ^ 53 ∧ maxDeg [.term ['x', 'x', 'x']] * 2 ≤ 970 :=
+  ⟨by decide, dyadic_example⟩
+
+/-- the rounding branch of the model is real: 0.1 (the double) times 3 is rounded to the double 0.30000000000000004,
+not returned as the exact product -/
+example : fmul53 (3602879701896397 / 36028797018963968) 3 = 1351079888211149 / 4503599627370496
+    ∧ (3602879701896397 / 36028797018963968 : Rat) * 3 ≠ 1351079888211149 / 4503599627370496 :=
+  ⟨by decide +kernel, by decide +kernel⟩
+
+/-! ### Phase 4: exactly when the sparse mapping is faithful (`sparseMonos`, `collides` in Model) -/
+
+/-- `dict(pairs)` has as many entries as there are pairs exactly when no two pairs share a key -/
+theorem dictOf_length_eq_iff_nodup (l : List (String × Rat)) :
+    (dictOf l).length = l.length ↔ (l.map (·.1)).Nodup := dictOf_length_eq_iff_nodup' l
+
+/-- `dict(pairs)` never holds a key twice -/
+theorem dictOf_keys_nodup (l : List (String × Rat)) : ((dictOf l).map (·.1)).Nodup := dictOf_keys_nodup' l
+
+/-- `collides` says what it should: two different positions of the list of named monomials carry the same name -/
+theorem collides_iff (is : List Inter) (kw : List (Char × NsVal)) :
+    collides is kw = true ↔ ¬ ((sparseMonos is kw).map (·.1)).Nodup := hasDup_iff _
+
+/-- [exact characterisation] for every term list (terms non-empty) and every sparse / string-valued call, `encode`
+returns a mapping `d`, and: `d` contains every named monomial `(concatenated name, product)` of the call AND has as
+many keys as there are monomials  ⇔  no two monomials (the constant entry included) share a name.  So name
+collisions are the ONLY way the sparse encoding loses or merges a monomial (findings C20-F4/F5) -/
+theorem sparse_faithful_iff (is : List Inter) (kw : List (Char × NsVal))
+    (hne : ∀ t ∈ strTerms is, t ≠ []) (hs : isSparseCall kw = true) :
+    ∃ d, encode Cfg.fixed is kw = .ok (.sparse d) ∧
+      (((∀ kv ∈ sparseMonos is kw, kv ∈ d) ∧ d.length = (sparseMonos is kw).length)
+        ↔ ((sparseMonos is kw).map (·.1)).Nodup) :=
+  sparse_faithful_iff' is kw hne hs
+
+/-- the same as a dichotomy on the decidable predicate `collides`: the returned mapping never holds a key twice; without
+a collision it IS the list of named monomials; with a collision it has strictly fewer entries than there are monomials -/
+theorem sparse_faithful_iff_collides (is : List Inter) (kw : List (Char × NsVal))
+    (hne : ∀ t ∈ strTerms is, t ≠ []) (hs : isSparseCall kw = true) :
+    ∃ d, encode Cfg.fixed is kw = .ok (.sparse d) ∧ (d.map (·.1)).Nodup ∧
+      (collides is kw = false → d = sparseMonos is kw) ∧
+      (collides is kw = true → d.length < (sparseMonos is kw).length) :=
+  sparse_faithful_iff_collides' is kw hne hs
+
+/-- non-vacuity: `InteractionsEncoder(['x','xx']).encode(x={'p':2,'q':3})` is a sparse call with non-empty terms and
+five monomials without collision -/
+example : (∀ t ∈ strTerms [.term ['x'], .term ['x', 'x']], t ≠ [])
+    ∧ isSparseCall [('x', .sparse [(.str "p", .num 2), (.str "q", .num 3)])] = true
+    ∧ collides [.term ['x'], .term ['x', 'x']] [('x', .sparse [(.str "p", .num 2), (.str "q", .num 3)])] = false
+    ∧ (sparseMonos [.term ['x'], .term ['x', 'x']] [('x', .sparse [(.str "p", .num 2), (.str "q", .num 3)])]).length = 5 := by
+  decide +kernel
+
+/-- the C20-F4 witness `InteractionsEncoder(['x','xx']).encode(x={'1':2,'1x1':3})` is on the colliding side: the
+names of its five monomials are not pairwise distinct (`x1x1` occurs twice), so four keys are returned -/
+theorem sparse_faithful_iff_counterexample :
+    collides [.term ['x'], .term ['x', 'x']] [('x', .sparse [(.str "1", .num 2), (.str "1x1", .num 3)])] = true
+    ∧ (sparseMonos [.term ['x'], .term ['x', 'x']] [('x', .sparse [(.str "1", .num 2), (.str "1x1", .num 3)])]).map (·.1)
+        = ["x1", "x1x1", "x1x1", "x1x1x1", "x1x1x1x1"] := by
+  decide +kernel
+
+/-- translator obligation (LinUCB): the body of `LinUCBLearner.learn`, read off the CURRENT source statement by statement
+(`r = θ @ f`, `w = A⁻¹ @ f`, `v = w @ f`, the two Sherman–Morrison assignments; numpy `@`, `np.outer`, broadcasting `+ - * /`),
+computes exactly the model's `LinState.learn` for every state, feature vector and reward — an edit of those lines breaks this -/
+theorem linucb_learn_source (s : LinState) (f : List Rat) (r : Rat) :
+    runLearn Coba.Generated.C20.linucbLearn s f r [] = some (s.learn f r) := learn_prog_sound rfl
+
+/-- … and so does the body of `LinTSLearner.learn` (same update, `_mu_hat` / `_B_inv`, assignments in the other order) -/
+theorem lints_learn_source (s : LinState) (f : List Rat) (r : Rat) :
+    runLearn Coba.Generated.C20.lintsLearn s f r [] = some (s.learn f r) := learn_prog_sound rfl
+
+/-- hence every history run with the programs read off the source ends in the model's final state
+(so `linucb_perm_equivariant` is a statement about the source's update rule) -/
+theorem learn_source_history (s : LinState) (es : List LinEvent) :
+    linRunProg Coba.Generated.C20.linucbLearn s es = some (linRun s es).2
+    ∧ linRunProg Coba.Generated.C20.lintsLearn s es = some (linRun s es).2 :=
+  ⟨linRunProg_eq linucb_learn_source s es, linRunProg_eq lints_learn_source s es⟩
+
+/-! ### Phase 4: the input shapes the property names, as instances of `encode_eq_spec` -/
+
+/-- (i) one namespace dense, the other sparse: the call is a sparse call and the result is the MAPPING of the
+specification (the dense namespace's features are named by position, see the example) -/
+theorem encode_mixed_sparse_dense_eq_spec (is : List Inter) (c d : Char) (its : List Item) (kvs : List (Key × Item))
+    (hne : ∀ t ∈ strTerms is, t ≠ []) :
+    encode Cfg.fixed is [(c, .dense its), (d, .sparse kvs)]
+      = .ok (.sparse (
+          let enc := dictOf (termsS pairMul pairOne (featsSparse [(c, .dense its), (d, .sparse kvs)]) (dedupFirst (strTerms is)))
+          if constant is ≠ 0 then dictSet "const" (constant is) enc else enc)) :=
+  encode_mixed_sparse_dense_eq_spec' is c d its kvs hne
+
+/-- `InteractionsEncoder(['xa']).encode(x=[2,3], a={'k':5})` -/
+example : encode Cfg.fixed [.term ['x', 'a']] [('x', .dense [.num 2, .num 3]), ('a', .sparse [(.str "k", .num 5)])]
+    = .ok (.sparse [("x0ak", 10), ("x1ak", 15)]) := by decide +kernel
+
+/-- (ii) a string-valued feature `{k: s}` of namespace `c` is one-hot: it contributes the key `c ++ k ++ s` with value 1 -/
+theorem encode_string_feature_onehot (c : Char) (k : Key) (s : String) :
+    encode Cfg.fixed [.term [c]] [(c, .sparse [(k, .str s)])] = .ok (.sparse [(String.singleton c ++ (k.fmt ++ s), 1)]) :=
+  encode_string_feature_onehot' c k s
+
+/-- … at the level of the namespace's named features, for a mapping entry and for a bare string (key `"0"`) -/
+theorem string_feature_names (c : Char) (k : Key) (s : String) :
+    sparseFeats c (.sparse [(k, .str s)]) = [(String.singleton c ++ (k.fmt ++ s), 1)]
+    ∧ sparseFeats c (.scalar (.str s)) = [(String.singleton c ++ ("0" ++ s), 1)] :=
+  ⟨sparseFeats_string_item c k s, sparseFeats_string_scalar c s⟩
+
+/-- `InteractionsEncoder(['a']).encode(a={'k':'v'})` and `.encode(a='red')` -/
+example : encode Cfg.fixed [.term ['a']] [('a', .sparse [(.str "k", .str "v")])] = .ok (.sparse [("akv", 1)])
+    ∧ encode Cfg.fixed [.term ['a']] [('a', .scalar (.str "red"))] = .ok (.sparse [("a0red", 1)]) := by decide +kernel
+
+/-- (iii) a term with a repeated letter, `ccd` (such as `'xxa'`): the degree-2 monomials of `c` (each unordered pair
+once, `monos_count`/`combos_sound`) times the features of `d`, left factor major — as a spec-level identity for every
+multiplication, and for the encoder on dense inputs -/
+theorem encode_repeated_letter_term (c d : Char) (h : c ≠ d) (kw : List (Char × NsVal)) (hd : isSparseCall kw = false) :
+    encode Cfg.fixed [.term [c, c, d]] kw
+      = .ok (.dense (outer ratMul (monos ratMul 1 2 (featsDense kw c)) (monos ratMul 1 1 (featsDense kw d)))) :=
+  encode_repeated_letter_term' c d h kw hd
+
+theorem term_repeated_letter {α : Type} (mul : α → α → α) (one : α) (F : Char → List α) (c d : Char) (h : c ≠ d) :
+    termS mul one F [c, c, d] = outer mul (monos mul one 2 (F c)) (monos mul one 1 (F d)) :=
+  termS_repeated_letter mul one F c d h
+
+/-- `InteractionsEncoder(['xxa']).encode(x=[2,3], a=[5])`: x0², x0·x1, x1² (three, not four), each times a0 -/
+example : 'x' ≠ 'a' ∧ isSparseCall [('x', .dense [.num 2, .num 3]), ('a', .dense [.num 5])] = false
+    ∧ encode Cfg.fixed [.term ['x', 'x', 'a']] [('x', .dense [.num 2, .num 3]), ('a', .dense [.num 5])]
+      = .ok (.dense [20, 30, 45]) := by decide +kernel
+
+/-! ### Phase 4: collisions at the level of feature names -/
+
+/-- the name of a monomial (a list of features) is the plain concatenation of its features' names, nothing else -/
+theorem mono_name_concat (c : List String) :
+    (monoProd strMul "" c).toList = (c.map String.toList).flatten := monoName_toList c
+
+/-- hence two monomials carry the same name exactly when the concatenations of their feature names are the same
+characters — a collision is two DIFFERENT feature lists `c ≠ c'` with this property (concatenation is not injective) -/
+theorem mono_name_collision_iff (c c' : List String) :
+    monoProd strMul "" c = monoProd strMul "" c' ↔ (c.map String.toList).flatten = (c'.map String.toList).flatten :=
+  monoName_eq_iff c c'
+
+/-- concatenation of blocks of one common length `L ≥ 1` is injective -/
+theorem concat_equal_length_injective {α : Type} (L : Nat) (hL : 1 ≤ L) (a b : List (List α))
+    (ha : ∀ x ∈ a, x.length = L) (hb : ∀ x ∈ b, x.length = L) (h : a.flatten = b.flatten) : a = b :=
+  flatten_inj_of_equal_length L hL a b ha hb h
+
+/-- [structural no-collision condition, checkable on the inputs] when the prefixed feature names of a namespace are
+pairwise distinct and all have one common length `L ≥ 1`, the names of its monomials of ALL degrees `0..d` (what the
+terms `x`, `xx`, `xxx`, … contribute) are pairwise distinct: no collision within or across degrees -/
+theorem mono_names_distinct_of_equal_length (L : Nat) (hL : 1 ≤ L) (names : List String)
+    (hnd : names.Nodup) (hlen : ∀ s ∈ names, s.length = L) (d : Nat) :
+    ((List.range (d + 1)).flatMap (fun k => monos strMul "" k names)).Nodup :=
+  monos_names_nodup_of_equal_length' L hL names hnd hlen d
+
+/-- the hypotheses are met by the names `xp`, `xq` (L = 2) … -/
+example : 1 ≤ 2 ∧ ["xp", "xq"].Nodup ∧ ∀ s ∈ ["xp", "xq"], s.length = 2 := by decide +kernel
+
+/-- … and the equal-length hypothesis cannot be dropped: the distinct names `x1`, `x1x1` (C20-F4) collide across degrees 1 and 2 -/
+theorem mono_names_equal_length_counterexample :
+    ["x1", "x1x1"].Nodup ∧ ¬ ((List.range 3).flatMap (fun k => monos strMul "" k ["x1", "x1x1"])).Nodup := by
+  decide +kernel
+
+/-! ### Phase 4: the rounding error of the explicit double model -/
+
+/-- rounding to `prec` significant bits moves a number by at most `2^-prec` of its size (every rational, no exponent limits) -/
+theorem roundSig_relative_error (prec : Nat) (q : Rat) : |roundSig prec q - q| ≤ |q| / 2 ^ prec := roundSig_rel_err prec q
+
+/-- the modelled double product is within relative error `2^-53` of the exact product — the `ε` clause of `FloatMul (2^-53)` -/
+theorem fmul53_relative_error (a b : Rat) : |fmul53 a b - a * b| ≤ |a * b| / 2 ^ 53 := fmul53_rel_err a b
+
+/-- `FloatMul`'s other clause (`fmul a 1 = a` for EVERY rational `a`) does not hold for a rounding multiplication:
+`fmul53 (1/3) 1 ≠ 1/3`. It holds on doubles (`exactOn_fl53`); `FloatMul` as phrased is only met by multiplications
+that are exact on non-representable arguments, so the float-model theorems apply to `fmul53` only with that clause
+restricted to representable numbers (open) -/
+theorem floatMul_fmul53_counterexample : ¬ FloatMul (1 / 2 ^ 53) fmul53 := floatMul_fmul53_fails
 
 end Coba.C20
